@@ -319,7 +319,8 @@ def run_path(fsrc, contract, registry, decisions, path_id, case):
             if pname in case:
                 args[pname] = case[pname]
             else:
-                args[pname] = ex.mk(ptype, pname)
+                pfx = "" if pname in contract.pair_shared else contract.name_prefix
+                args[pname] = ex.mk(ptype, pfx + pname)
                 if pname in contract.dynamic_types and isinstance(args[pname], SObj):
                     args[pname]._ftypes.update(contract.dynamic_types[pname])
         a = NS(args)
@@ -374,7 +375,87 @@ def _z(x):
     return z3.BoolVal(bool(x))
 
 
+def _collect_paths(fsrc, contract, registry, prefix):
+    import copy
+    c = copy.copy(contract)
+    c.name_prefix = prefix
+    c.ensures = []
+    outs = []
+    work = [[]]
+    n = 0
+    while work:
+        decisions = work.pop()
+        n += 1
+        if n > MAX_PATHS:
+            raise OutOfSubset("path limit")
+        ex, outcome, args = run_path(fsrc, c, registry, decisions, n, {})
+        work.extend(ex.pending)
+        if outcome is not None and outcome[0] == "return":
+            outs.append((ex, outcome[1], args))
+    return outs
+
+
+def verify_pair_lemma(contract: Contract, registry: dict) -> FunctionReport:
+    """Relational lemma over two calls: for every pair of paths, pc_a & pc_b => pair_ensures."""
+    t0 = time.time()
+    rep = FunctionReport(contract.qualname)
+    try:
+        fsrc = source.get_function(contract.qualname)
+        rep.file, rep.lines, rep.sha256 = fsrc.file, fsrc.lines, fsrc.sha256
+        A = _collect_paths(fsrc, contract, registry, "a:")
+        Bp = _collect_paths(fsrc, contract, registry, "b:")
+        rep.paths = len(A) + len(Bp)
+        rep.paths_covered = rep.paths
+        rep.canary_ok = bool(A) and bool(Bp)
+        pid = 0
+        for exa, ra, aa in A:
+            for exb, rb, ab in Bp:
+                pid += 1
+                ex = Executor(fsrc, contract, registry, [], pid)
+                SObj.CUR = ex
+                for cnd in exa.pc + exb.pc:
+                    ex.assume(cnd)
+                rep.assumptions |= exa.assumptions_used | exb.assumptions_used
+                for ename, efn in contract.pair_ensures:
+                    try:
+                        goal = efn(NS(aa), ra, NS(ab), rb)
+                    except PathEnd:
+                        continue
+                    if goal is True:
+                        continue
+                    goal = _z(goal)
+                    st, backend, ms, model, why = solve_valid(ex.pc, goal)
+                    rep.solver_ms += ms
+                    r = OblResult(f"lemma[{ename}]", "lemma", pid, "", "undecided", backend, ms,
+                                  smt_head=f"[{len(ex.pc)} path facts: {ex.pc}] |- {str(goal)[:1500]}")
+                    if st == "valid":
+                        r.status = "proved"
+                    elif st == "unknown":
+                        r.detail = why
+                    else:
+                        inputs = dict(exa.inputs)
+                        inputs.update(exb.inputs)
+                        r.model = decode_inputs(model, inputs)
+                        r.status = "violated-noinput"
+                        r.detail = "a: " + ";".join(exa.shape) + " | b: " + ";".join(exb.shape)
+                        if contract.replay is not None:
+                            r.replay = contract.replay(fsrc, contract, (exa, aa, ra), (exb, ab, rb), model)
+                            if r.replay.get("confirmed"):
+                                r.status = "violated"
+                    rep.results.append(r)
+    except OutOfSubset as e:
+        rep.out_of_subset = str(e)
+    except AttributeError as e:
+        rep.out_of_subset = f"contract drift: {e}"
+    except Exception as e:
+        rep.error = f"{type(e).__name__}: {e}\n{traceback.format_exc()[-1500:]}"
+    rep.wall_s = time.time() - t0
+    return rep
+
+
 def verify_function(contract: Contract, registry: dict, known_ids=frozenset(), replay=True) -> FunctionReport:
+    if contract.pair_ensures:
+        return verify_pair_lemma(contract, registry)
     t0 = time.time()
     rep = FunctionReport(contract.qualname)
     try:
